@@ -641,9 +641,13 @@ public:
 		return std::nullopt;
 	}
 
-	[[nodiscard]] std::optional<CMsgPackReadBinaryScope<TReader>> OpenBinaryScope(size_t) const
+	[[nodiscard]] std::optional<CMsgPackReadBinaryScope<TReader>> OpenBinaryScope(size_t)
 	{
-		if (size_t sz = 0; mMsgPackReader->ReadBinarySize(sz)) {
+		CheckEnd();
+		// When the value is not a binary array, it is left as is (the caller will try to load it as a regular array)
+		if (size_t sz = 0; mMsgPackReader->ReadBinarySize(sz))
+		{
+			++mIndex;
 			return std::make_optional<CMsgPackReadBinaryScope<TReader>>(sz, mMsgPackReader, GetContext());
 		}
 		return std::nullopt;
@@ -771,10 +775,10 @@ public:
 	{
 		if (FindValueByKey(key))
 		{
+			// When the value is not a binary array, it is left as is (the caller will try to load it as a regular array)
 			if (size_t sz = 0; mMsgPackReader->ReadBinarySize(sz)) {
 				return std::make_optional<CMsgPackReadBinaryScope<TReader>>(sz, mMsgPackReader, GetContext(), this);
 			}
-			OnFinishChildScope();
 		}
 		return std::nullopt;
 	}
